@@ -14,10 +14,14 @@ pub struct St {
     pub path: Vec<u32>,
     /// ids of the leaf answers used on the way (leaf id, answer index)
     pub attribution: Vec<(u32, u32)>,
+    /// committed-choice decisions taken on the way (choice point, head answer index)
+    pub choices: Vec<(u32, u32)>,
 }
 
 #[derive(Clone, Debug)]
 pub struct Opts {
+    /// keep every head answer of condu/onceo and log which one each answer depends on
+    pub all_choices: bool,
     /// evaluation steps allowed before giving up
     pub fuel: u64,
     /// how many times `Anyo`/`Flood`/`Always` unfold (0 = treat as finite failure)
@@ -31,6 +35,7 @@ pub struct Opts {
 impl Default for Opts {
     fn default() -> Opts {
         Opts {
+            all_choices: false,
             fuel: 200_000,
             unfold: 0,
             rec_depth: 64,
@@ -48,10 +53,21 @@ pub struct Answer {
     pub diseqs: Vec<Vec<(T, T)>>,
     pub path: Vec<u32>,
     pub attribution: Vec<(u32, u32)>,
+    pub choices: Vec<(u32, u32)>,
+}
+
+/// One evaluation of a condu/onceo node: how many head answers it had and whether the engine's
+/// choice among them is forced to be the first (order-deterministic head).
+#[derive(Clone, Debug)]
+pub struct ChoicePoint {
+    pub id: u32,
+    pub heads: u32,
+    pub forced_first: bool,
 }
 
 pub struct Outcome {
     pub answers: Vec<Answer>,
+    pub choice_points: Vec<ChoicePoint>,
     /// fuel, recursion bound or answer bound cut the search short
     pub cut: bool,
     /// an infinite construct (anyo, flood, always/never) was unfolded a bounded number of times
@@ -65,6 +81,19 @@ pub struct R1<'a> {
     fuel: u64,
     cut: bool,
     unfolded: bool,
+    choice_points: Vec<ChoicePoint>,
+}
+
+/// Is the first answer of this goal, in engine order, necessarily the reference's first?
+pub fn order_deterministic(g: &G) -> bool {
+    match g {
+        G::Succeed | G::Fail | G::Eq(..) | G::Neq(..) | G::Prim(..) | G::UserTag(_) | G::Probe(_) | G::Observe(_) => true,
+        G::Leaf(l) => matches!(l.shape, Shape::Chain | Shape::Iter),
+        G::Dfs(_) => true,
+        G::Call(Rel::ConsR, _) | G::Call(Rel::First, _) | G::Call(Rel::Rest, _) | G::Call(Rel::Empty, _) => true,
+        G::Call(Rel::Succeed, _) | G::Call(Rel::Fail, _) => true,
+        _ => false,
+    }
 }
 
 type Env = Vec<Option<T>>;
@@ -183,6 +212,21 @@ impl<'a> R1<'a> {
             next: 0,
             cut: false,
             unfolded: false,
+            choice_points: vec![],
+        }
+    }
+
+    fn choose(&mut self, mut heads: Vec<St>, forced_first: bool) -> Vec<St> {
+        if self.opts.all_choices {
+            let id = self.choice_points.len() as u32;
+            self.choice_points.push(ChoicePoint { id, heads: heads.len() as u32, forced_first });
+            for (i, h) in heads.iter_mut().enumerate() {
+                h.choices.push((id, i as u32));
+            }
+            heads
+        } else {
+            heads.truncate(1);
+            heads
         }
     }
 
@@ -206,6 +250,7 @@ impl<'a> R1<'a> {
         let answers = sts.iter().map(|st| reify_answer(&q, st)).collect();
         Outcome {
             answers,
+            choice_points: self.choice_points.clone(),
             cut: self.cut,
             unfolded: self.unfolded,
         }
@@ -466,18 +511,22 @@ impl<'a> R1<'a> {
                     if c.is_empty() {
                         continue;
                     }
-                    let mut heads = self.eval(&c[0], env, st.clone(), depth);
+                    let heads = self.eval(&c[0], env, st.clone(), depth);
                     if !heads.is_empty() {
-                        heads.truncate(1);
+                        let heads = self.choose(heads, order_deterministic(&c[0]));
                         return self.conj(&c[1..], env, heads, depth);
                     }
                 }
                 vec![]
             }
             G::Onceo(gs) => {
-                let mut r = self.conj(gs, env, vec![st], depth);
-                r.truncate(1);
-                r
+                let r = self.conj(gs, env, vec![st], depth);
+                if r.is_empty() {
+                    r
+                } else {
+                    let forced = gs.len() == 1 && order_deterministic(&gs[0]);
+                    self.choose(r, forced)
+                }
             }
             G::Anyo(gs) => {
                 self.unfolded = true;
@@ -526,7 +575,7 @@ impl<'a> R1<'a> {
                 st.path.push(*tag);
                 vec![st]
             }
-            G::Probe(_) => vec![st],
+            G::Probe(_) | G::Observe(_) => vec![st],
             G::Dom(..)
             | G::DomRange(..)
             | G::Ltefd(..)
@@ -586,6 +635,7 @@ pub fn reify_answer(q: &T, st: &St) -> Answer {
         diseqs: cs,
         path: st.path.clone(),
         attribution: st.attribution.clone(),
+        choices: st.choices.clone(),
     }
 }
 
